@@ -444,6 +444,31 @@ def _bound_names(fn: ast.AST) -> set:
     return out
 
 
+_PURE_CTORS = {"frozenset", "set", "tuple", "list", "dict", "sorted"}
+
+
+def _pure_definition(e: ast.expr) -> bool:
+    for n in ast.walk(e):
+        if isinstance(n, ast.Call) and not (isinstance(n.func, ast.Name) and n.func.id in _PURE_CTORS):
+            return False
+        if isinstance(n, (ast.Await, ast.Yield, ast.YieldFrom, ast.NamedExpr, ast.Lambda)):
+            return False
+    return True
+
+
+def _mutated_anywhere(repo, name: str) -> bool:
+    for m in repo.modules.values():
+        for n in ast.walk(m.tree):
+            if isinstance(n, (ast.Subscript, ast.Attribute)) and isinstance(n.ctx, (ast.Store, ast.Del)) and isinstance(n.value, ast.Name) and n.value.id == name:
+                return True
+            if isinstance(n, ast.Call) and isinstance(n.func, ast.Attribute) and isinstance(n.func.value, ast.Name) and n.func.value.id == name \
+                    and n.func.attr in ("append", "extend", "add", "update", "pop", "remove", "clear", "insert", "setdefault", "sort"):
+                return True
+            if isinstance(n, ast.Global) and name in n.names:
+                return True
+    return False
+
+
 def fold_constants(repo) -> int:
     """replace every Name that resolves (through the imports of the analysed tree) to a module-level scalar / tuple
     constant by its value.  Returns the number of names folded."""
@@ -458,6 +483,8 @@ def fold_constants(repo) -> int:
             table.setdefault(fi.node.name, []).append({"pos": [x.arg for x in a.posonlyargs + a.args], "kwonly": [x.arg for x in a.kwonlyargs], "vararg": bool(a.vararg),
                                                        "method": fi.cls is not None, "static": any(getattr(d, "id", "") == "staticmethod" for d in fi.node.decorator_list)})
     sigs = sig_from_table(table)
+    from .canon import pinned as _pinned
+    pinned_assigns = _pinned().get("assigns", {})
     for m in repo.modules.values():
         cache = {}
         count = [0]
@@ -471,6 +498,15 @@ def fold_constants(repo) -> int:
                     k, v = repo.resolve(m, name)
                     if k == "const" and is_foldable(v) and not isinstance(v, bool) or (k == "const" and isinstance(v, bool)):
                         r = (True, v)
+                    elif k == "var":
+                        # a module-level name that does not exist on the pinned tree, assigned once to a pure expression
+                        # (comprehension / literal / constructor over names): read like the expression itself
+                        dm, dn = v
+                        known = set(pinned_assigns.get(dm.relpath, []))
+                        vals = dm.assigns.get(dn, [])
+                        if pinned_assigns.get(dm.relpath) is not None and dn not in known and len(vals) == 1 and isinstance(vals[0], ast.expr) and _pure_definition(vals[0]) \
+                                and not _mutated_anywhere(repo, dn):
+                            r = (False, vals[0])
                 except Exception:
                     r = None
                 cache[name] = r
